@@ -7,6 +7,8 @@ from .c01 import r1
 
 def run(ctx):
     r1(ctx)
+    from . import grouping_drift
+    grouping_drift.run(ctx, ctx.tier == "thorough")           # R2: Grouping.tla's placements replayed into the real driver (informational)
     lc.run_family(ctx, ("window", "long"), 4,
                   "tags of every size in windows around the connection size and its multiples (500 and 4000), element widths 1/2/4/8, "
                   "read and written alone and next to other requests, groups of mid-sized reads, target fragment capacities "
